@@ -26,7 +26,11 @@ TEXTS = [("doc1.txt", "plaintext", "This is teh first zzyzxq document, wich has 
           "[the guide](https://docs.example.com/guide \"a title\") and <https://auto.example.io> and ![img](http://img.example.com/a.png)\n"),
          ("doc5.txt", "plaintext", "Connect to ws://socket.example.com or wss://secure.example.com:443/ws, read file:///etc/hostname "
           "and /etc/passwd, ssh 192.168.1.10:22, localhost:3000, \\\\fileserver\\share, mailto:alice@example.com, teh end.\n"),
-         ("doc6.py", "python", "# Fetch https://api.example.com/v1/users?id=1 and see teh docs at http://docs.example.com\nx = 1\n")]
+         ("doc6.py", "python", "# Fetch https://api.example.com/v1/users?id=1 and see teh docs at http://docs.example.com\nx = 1\n"),
+         # document URIs with escaped characters, among them an escaped path separator: the name of the file
+         # dictionary is made from the URI, and must stay a name inside the configured directory
+         ("enc%2F..%2F..%2F..%2Fescape.md", "markdown", "An teh text with qwertzuv.\n"),
+         ("my%20notes%2Fdraft%C3%A9.txt", "plaintext", "Some teh words.\n")]
 
 
 def classify(path, pol):
@@ -53,6 +57,17 @@ def classify(path, pol):
 
 
 _RE_LINE = re.compile(r"^(?:\d+\s+)?(\w+)\((.*)\)\s+=\s+(-?\d+|\?)")
+
+
+def unescape(p):
+    """strace prints non-ASCII bytes of a path as octal escapes"""
+    if "\\" not in p:
+        return p
+    try:
+        import codecs
+        return codecs.decode(p, "unicode_escape").encode("latin1").decode("utf-8", errors="replace")
+    except Exception:
+        return p
 
 
 def parse_strace(path, pol, cwd):
@@ -85,7 +100,7 @@ def parse_strace(path, pol, cwd):
             pm = re.search(r'"((?:[^"\\]|\\.)*)"', args)
             if not pm:
                 continue
-            p = pm.group(1)
+            p = unescape(pm.group(1))
             writes = call == "creat" or any(f in args for f in ("O_WRONLY", "O_RDWR", "O_CREAT", "O_TRUNC", "O_APPEND"))
             if not writes:
                 continue
@@ -101,7 +116,7 @@ def parse_strace(path, pol, cwd):
             evs.append({"ev": "Sys", "call": "open_write", "path": p, "pclass": pc, "family": "", "kind": "", "addr": "", "port": 0})
         elif call in ("mkdir", "mkdirat"):
             pm = re.search(r'"((?:[^"\\]|\\.)*)"', args)
-            p = pm.group(1) if pm else ""
+            p = unescape(pm.group(1)) if pm else ""
             if not p.startswith("/"):
                 p = os.path.join(cwd, p)
             evs.append({"ev": "Sys", "call": "mkdir", "path": p, "pclass": classify(p, pol), "family": "", "kind": "", "addr": "", "port": 0})
@@ -143,7 +158,7 @@ def run_server(mode, wd, v, pre=False, rnd=None):
     pol = {"userDict": os.path.join(home, "cfg", "harper-ls", "my_dict.txt"),
            "fileDictDir": os.path.join(home, "data", "file_dicts"),
            "stats": os.path.join(home, "data", "stats", "stats.txt")}
-    pol["fileDictNames"] = {"".join(seg + "%" for seg in os.path.join(docs, name).split("/") if seg) for name, _, _ in TEXTS}
+    pol["fileDictNames"] = {lspclient.flat_name("file://" + os.path.join(docs, name)) for name, _, _ in TEXTS}
     if rnd:
         pol["fileDictPrefix"] = "".join(seg + "%" for seg in docs.split("/") if seg)
     if pre:
